@@ -208,6 +208,14 @@ static void run() {
       }
     }
   }
+  if (verbose()) {
+    static const char* MODES[] = {"all 00", "all FF", "80 00 ...", "00 FF ...", "counter", "seeded"};
+    string d = string("entropy stream ") + MODES[mode] + ", device script [";
+    for (int a : script) d += std::to_string(a) + " ";
+    d += "] (0 full read, k>0 at most k bytes, -1 EIO, -2 EINTR); calls:";
+    for (auto& op : ops) d += " " + op_name(op) + ";";
+    note(d);
+  }
   if (mode <= 3) VS_PROBE("adversarial_entropy_stream");
   if (ops.size() > 1) mark_nontrivial();
 
